@@ -30,10 +30,11 @@ theorem reachable_inv {m n : Nat} {s : State} (h : Reachable m n s) : HInv m s :
   obtain ⟨as, h⟩ := h
   exact hinv_run good_source as (hinv_init m n) h
 
-/-- **Limit**: with a configured maximum `m ≥ 1` the number of live (created, not dead) connections
-never exceeds `m`; and `total` is exactly that number. -/
+/-- **Limit**: with a configured maximum `m ≥ 1` the number of live (created, not dead) connections plus
+the slots reserved by callers that are about to create one never exceeds `m`; and `total` is exactly
+that number. -/
 theorem live_le_max (m n : Nat) (s : State) (h : Reachable m n s) (hm : 1 ≤ m) :
-    liveCount s ≤ m ∧ s.total = liveCount s := by
+    liveCount s + nReserved s ≤ m ∧ s.total = liveCount s + nReserved s := by
   have hI := reachable_inv h
   have h1 := hI.lim (by rw [hI.maxc]; omega)
   have h2 := hI.tot
@@ -64,7 +65,7 @@ theorem handout_alive (s s' : State) (a : Action) (h : step cfgOfSource s a = so
 
 /-- The driver's executable monitor (limit + holder clauses) follows from the invariant. -/
 theorem monitor_limit_holders (m n : Nat) (s : State) (h : Reachable m n s) :
-    (s.total == liveCount s) = true ∧ (s.max == 0 || decide (s.total ≤ s.max)) = true ∧
+    (s.total == liveCount s + nReserved s) = true ∧ (s.max == 0 || decide (s.total ≤ s.max)) = true ∧
     ∀ c, c < s.conns.length → holders s c ≤ 1 ∧ (isDead s c = true ∨ holders s c = 1) := by
   have hI := reachable_inv h
   refine ⟨by simp [hI.tot], ?_, ?_⟩
@@ -123,7 +124,7 @@ theorem holdsB_reachable (m n : Nat) (s : State) (h : Reachable m n s) : holdsB 
 handed out — max 1, two callers, the connection dies while it sits in the second caller's channel. -/
 theorem handout_dead_counterexample :
     ∃ s, run { handoutChecksDead := false, createCancelReleases := true } (init 1 2)
-        [.start 0, .enter 0, .ready 0, .cwake 0 .ready, .start 1, .enter 1, .finish 0 .ok (some 0), .die 0,
+        [.start 0, .enter 0, .mk 0, .ready 0, .cwake 0 .ready, .start 1, .enter 1, .finish 0 .ok (some 0), .die 0,
          .wwake 1 .ch] = some s ∧
       s.callers[1]? = some { pc := .using 0, cancelled := false } ∧ isDead s 0 = true := ⟨_, rfl, by decide⟩
 
@@ -131,12 +132,12 @@ theorem handout_dead_counterexample :
 
 /-- A transfer to a waiter, then the connection is used by the second caller, limit 1. -/
 example : ∃ s, Reachable 1 2 s ∧ s.callers.map (·.pc) = [.done, .using 0] ∧ holders s 0 = 1 ∧ s.total = 1 :=
-  ⟨_, ⟨[.start 0, .enter 0, .ready 0, .cwake 0 .ready, .start 1, .enter 1, .finish 0 .ok (some 0), .wwake 1 .ch], rfl⟩,
+  ⟨_, ⟨[.start 0, .enter 0, .mk 0, .ready 0, .cwake 0 .ready, .start 1, .enter 1, .finish 0 .ok (some 0), .wwake 1 .ch], rfl⟩,
     by decide⟩
 
 /-- With the check, the same death is caught: the second caller retries and creates connection 1. -/
 example : ∃ s, Reachable 1 2 s ∧ s.callers.map (·.pc) = [.done, .creating 1] ∧ liveCount s = 1 :=
-  ⟨_, ⟨[.start 0, .enter 0, .ready 0, .cwake 0 .ready, .start 1, .enter 1, .finish 0 .ok (some 0), .die 0,
-        .wwake 1 .ch, .enter 1], rfl⟩, by decide⟩
+  ⟨_, ⟨[.start 0, .enter 0, .mk 0, .ready 0, .cwake 0 .ready, .start 1, .enter 1, .finish 0 .ok (some 0), .die 0,
+        .wwake 1 .ch, .enter 1, .mk 1], rfl⟩, by decide⟩
 
 end TdModel.C27
